@@ -102,6 +102,18 @@ def gen_scope(runner, tier, seed):
     for m in (mcast_mac4(twin), bytes([1, 0, 0x5e, 0x8b, 12, 13]), bytes([1, 0, 0x5e, 0x0b, 12, 14])):
         fr += [f for _, f in base_requests(m, C4, twin, C6, S6)]
     s.send(fr)
+    # every one of the 23 mapped bits counts: the derived MAC with one bit flipped is not ours (nor is bit 23 mapped)
+    for own in ("10.127.255.255", "10.128.0.0", "10.77.2.3", rand_ip4(r)):
+        cfg = Config(SMAC, [own], None, KEYS[1], "none", 0)
+        s = runner.session(cfg, "scope rfc1112 bit by bit %s" % own)
+        good = mcast_mac4(own)
+        v4 = ("arp", "echo4", "syn4", "stun4")
+        fr = [f for n_, f in base_requests(good, C4, own, C6, S6) if n_ in v4]
+        for bit in range(24):
+            v = int.from_bytes(good[3:], "big") ^ (1 << bit)
+            m = good[:3] + v.to_bytes(3, "big")
+            fr += [f for n_, f in base_requests(m, C4, own, C6, S6) if n_ in v4]
+        s.send(fr)
     # multicast MACs are derived per family: the IPv4 group prefix with the low bits of a handled IPv6
     # address (or the reverse) is not ours; several handled addresses may share one group MAC
     a4, b4 = "170.153.136.119", "10.25.136.119"              # same low 23 bits
@@ -1231,6 +1243,15 @@ def gen_dns(runner, tier, seed):
         pl.append(dns_query(n, 0x0100, [(bytes([97 + i % 26]),) for i in range(n)]))
     for n in (255, 256, 257, 300):                       # counts crossing one byte
         pl.append(dns_query(n, 0x0100, [(bytes([97 + i % 26]),) for i in range(n)]))
+    # shortest names: the root (a question of five bytes), one-byte labels, mixed with ordinary names
+    for fw in (0, 0x0100):
+        pl.append(dns_query(0x5001, fw, [()]))
+        pl.append(dns_query(0x5002, fw, [(), (b"a",)]))
+        pl.append(dns_query(0x5003, fw, [(b"a",), ()]))
+        pl.append(dns_query(0x5004, fw, [(), ()]))
+        pl.append(dns_query(0x5005, fw, [(), (b"www", b"example", b"com")]))
+        pl.append(dns_query(0x5006, fw, [()] * 9))
+        pl.append(dns_query(0x5007, fw, [(), (b"b",), (), (b"c",), ()]))
     # longest names
     pl.append(dns_query(7, 0x0100, [(b"a" * 63, b"b" * 63, b"c" * 63, b"d" * 61)]))
     pl.append(dns_query(7, 0x0100, [(b"a" * 63, b"b" * 63, b"c" * 63, b"d" * 62)]))        # 256: too long
